@@ -183,6 +183,29 @@ def _new_stats(case_name):
             "wall_s": 0.0, "items": 0, "errors": []}
 
 
+def _try_witnesses(case, witnesses, out, seen, why):
+    """The symbolic encoding has a gap on this path (a counterexample that does
+    not reproduce, or an unsupported operation).  Run the real code on further
+    solver models of the path condition: a concrete failure is a genuine,
+    already-replayed violation; no failure leaves the result inconclusive."""
+    for vals in witnesses:
+        try:
+            clabel, cobs, cviol = run_concrete(case, vals)
+        except BaseException:  # noqa
+            continue
+        out["notes"]["concrete-witness-runs"] = out["notes"].get("concrete-witness-runs", 0) + 1
+        for cv in cviol:
+            if cv.key in seen:
+                continue
+            seen.add(cv.key)
+            rec = cv.as_dict()
+            rec["values"] = vals
+            rec["case"] = case.name
+            rec["reproduced"] = True
+            rec["detail"] = "%s [found on a solver witness of the path after: %s]" % (cv.detail, why[:200])
+            out["violations"].append(rec)
+
+
 def run_item(case, root, tier, seed, opts, out, donate=None):
     """Explore the subtree of `case` below decision prefix `root`, adding to
     the per-case statistics dict `out`."""
@@ -274,6 +297,10 @@ def run_item(case, root, tier, seed, opts, out, donate=None):
                 rec["reproduced"] = False
                 rec["concrete_outcome"] = "exception: %r" % (e,)
             out["violations"].append(rec)
+            if not rec["reproduced"]:
+                _try_witnesses(case, v.alts, out, seen, "counterexample for %r did not reproduce" % v.key)
+        if status.startswith("unsupported") and ctx.abort_witnesses:
+            _try_witnesses(case, ctx.abort_witnesses, out, seen, status)
         for text, expected in second_q:
             r = _second_solver(text)
             if r not in ("sat", "unsat"):
